@@ -128,7 +128,14 @@ fn generate(a: &Args) -> i32 {
         }
         for (bd, lim) in cfgs {
             sink.count(&format!("family.{fam}"));
-            crate::pump::one(&mut sink, text, &items, &bd, lim, false);
+            // runs above 40k delivered events are checked against the limits directly (implementation only)
+            if let Some(delivered) = crate::pump::one_capped(&mut sink, text, &items, &bd, lim, false, 40_000) {
+                let bound = nev.saturating_add(lim.max_total_replayed_events).saturating_add(8);
+                let bound = match &bd { Some(b) => bound.min(b.max_events.saturating_add(8)), None => bound };
+                if delivered > bound {
+                    fails.push(serde_json::json!({"id": "C08-delivered-exceeds-limits", "what": "more events delivered than raw events + max_total_replayed_events (or max_events) allow", "input": name, "observed": format!("{delivered}"), "expected": format!("<= {bound}")}));
+                }
+            }
         }
     }
     // ---- peak-heap oracle (implementation only): untyped deserialization under the default options
